@@ -1431,8 +1431,17 @@ func (ls *LState) NewThread() (*LState, context.CancelFunc) {
 	thread.Env = ls.Env
 	var f context.CancelFunc = nil
 	if ls.ctx != nil {
+		// a coroutine's own context is cancelled when the coroutine ends (to
+		// release it). Coroutines it created may outlive it, so theirs hang
+		// below the context that was attached with SetContext, not below the
+		// creator's.
+		parent := ls.ctxParent
+		if parent == nil {
+			parent = ls.ctx
+		}
 		thread.mainLoop = mainLoopWithContext
-		thread.ctx, f = context.WithCancel(ls.ctx)
+		thread.ctx, f = context.WithCancel(parent)
+		thread.ctxParent = parent
 		thread.ctxCancelFn = f
 	}
 	return thread, f
@@ -2085,6 +2094,7 @@ func (ls *LState) SetMx(mx int) {
 func (ls *LState) SetContext(ctx context.Context) {
 	ls.mainLoop = mainLoopWithContext
 	ls.ctx = ctx
+	ls.ctxParent = ctx
 }
 
 // Context returns the LState's context. To change the context, use WithContext.
@@ -2097,6 +2107,7 @@ func (ls *LState) RemoveContext() context.Context {
 	oldctx := ls.ctx
 	ls.mainLoop = mainLoop
 	ls.ctx = nil
+	ls.ctxParent = nil
 	return oldctx
 }
 
